@@ -35,6 +35,13 @@ structure TSim where
   resourceViolation : Bool := false   -- model rejected a frame because it exceeds a resource limit
   goodbye : Bool := false
   txPayload : Bool := false   -- the next item sent by the real endpoint is the payload of a Data message
+  maxRecvPorts : Nat := 128
+  /-- ports received in the port batch currently open on a local port -/
+  batch : List (Nat × Nat) := []
+  /-- pending recv_any calls: call id ↦ port name -/
+  recvPending : List (String × String) := []
+  /-- ports whose open batch was already refused (further continuation frames are ignored) -/
+  batchRefused : List Nat := []
 
 def TSim.diff (s : TSim) (line : Nat) (what : String) : TSim :=
   { s with replayOk := false, out := if s.out.length < 10 then s.out ++ [s!"DIFF {s.name} line={line} {what}"] else s.out }
@@ -87,7 +94,17 @@ def TSim.onRx (s : TSim) (line : Nat) (bs : List UInt8) : TSim :=
       | .data p f l => { s with hdr := some (p, f, l) }
       | m =>
         match handleRx s.ep m with
-        | .ok (e, emit) => { s with ep := e, expectTx := s.expectTx ++ emit }
+        | .ok (e, emit) =>
+          let s := match m with
+            | .portData p first last _ ps _ =>
+              let prev := if first then 0 else ((s.batch.find? (fun (q : Nat × Nat) => q.1 == p)).map (fun (q : Nat × Nat) => q.2)).getD 0
+              let b := s.batch.filter (fun (q : Nat × Nat) => q.1 != p)
+              let refused := if first then s.batchRefused.filter (· != p) else s.batchRefused
+              if refused.contains p then { s with batch := b, batchRefused := refused }
+              else { s with batch := (if last then b else b ++ [(p, prev + ps.length)]), batchRefused := refused }
+            | .data p _ _ => { s with batch := s.batch.filter (fun (q : Nat × Nat) => q.1 != p) }
+            | _ => s
+          { s with ep := e, expectTx := s.expectTx ++ emit }
         | .error err =>
           let resource := match m with
             | .openPort _ _ _ => true
@@ -172,7 +189,7 @@ def stepLine (a : TAcc) (n : Nat) (line : String) : IO TAcc := do
     let cfg : EpCfg := { c0 with maxPorts := (kvNat rest "ports").getD 0, cq := (kvNat rest "cq").getD 0,
                                  chunk := (kvNat rest "chunk").getD 0, buf := (kvNat rest "buf").getD 0 }
     let ep0 := s.ep
-    return { a with sim := { s with ep := { ep0 with cfg := cfg } } }
+    return { a with sim := { s with ep := { ep0 with cfg := cfg }, maxRecvPorts := (kvNat rest "maxports").getD 128 } }
   | ["injected", _, "hello", v, _, _, b, q] =>
     if s.started then return { a with sim := s } else
     let c0 := s.ep.cfg
@@ -198,6 +215,11 @@ def stepLine (a : TAcc) (n : Nat) (line : String) : IO TAcc := do
     | some rp =>
       let ep0 := s.ep
       return { a with sim := { s with ep := { ep0 with listenQ := ep0.listenQ.filter (·.1 != rp) } } }
+    | none => return { a with sim := s }
+  | ["ret", k, "err", "maxports", _] =>
+    -- the batch was refused: the receiver dropped what it had accumulated
+    match (s.recvPending.find? (·.1 == k)).bind (fun (_, name) => (s.names.find? (·.1 == name)).map (·.2)) with
+    | some lp => return { a with sim := { s with batch := s.batch.filter (fun (q : Nat × Nat) => q.1 != lp), batchRefused := s.batchRefused ++ [lp] } }
     | none => return { a with sim := s }
   | "ret" :: _ :: "probe" :: rest =>
     let q := (kvNat rest "queue").getD 0
@@ -226,7 +248,24 @@ def stepLine (a : TAcc) (n : Nat) (line : String) : IO TAcc := do
         return { a with sim := { s with ep := { ep0 with ports := setPort ep0.ports lp (.connected { c with rxq := q' }) } } }
       | _ => return { a with sim := s }
     | _, _, _ => return { a with sim := s }
+  | ["op", "recvany", k, "B", name] => return { a with sim := { s with recvPending := s.recvPending ++ [(k, name)] } }
   | "settled" :: rest =>
+    -- a receive call that is pending although the open port batch already exceeds the number of ports
+    -- the receiver accepts per message: requests are accumulated without bound
+    let pend := match kvGet rest "pending" with
+      | some "-" => []
+      | some t => t.splitOn ","
+      | none => []
+    let lineNo := n
+    let s := s.recvPending.foldl (fun s (k, name) =>
+      if !pend.contains k || s.realRun.isSome then s else
+      match (s.names.find? (·.1 == name)).map (·.2) with
+      | some lp =>
+        let n := ((s.batch.find? (fun (q : Nat × Nat) => q.1 == lp)).map (fun (q : Nat × Nat) => q.2)).getD 0
+        if n > s.maxRecvPorts then
+          s.fail lineNo s!"receive call {k} on port {name} is still pending although the open port batch holds {n} requests and the receiver accepts at most {s.maxRecvPorts} per message (requests accumulate without bound)"
+        else s
+      | none => s) s
     match s.realRun, kvGet rest "pending" with
     | some _, some p =>
       if p != "-" then return { a with sim := s.fail n s!"API calls still pending after the dispatcher terminated: {p}" }
